@@ -27,7 +27,9 @@ CLAUSES = (
     'reachable only from commands; the next parentless instance is the '
     'earliest, over every recurrence of the task, of get_next_point(point) '
     '(the off-sequence-safe step; get_next_point_on_sequence is confined to '
-    'the cycling classes and the graph walk). Not decided: equality of the submitted set '
+    'the cycling classes and the graph walk); the family member table given '
+    'to the graph parser lists every task descendant (full linearisation). '
+    'Not decided: equality of the submitted set '
     'with the spawn-on-demand closure over all graphs and outcomes.')
 
 S = 'scheduler'
